@@ -2371,3 +2371,185 @@ PROPS["C13"]["gen"] = gen_union(PROPS["C13"]["gen"], gen_split_m8(300, 3000))
 
 
 PROPS["C16"]["gen"] = gen_union(PROPS["C16"]["gen"], gen_shape_extreme(200, 2000))
+
+
+# M9: executable model of refine (Refine/OuterModel.v: calculate_outer_faces; Refine/RefineModel.v: the whole loop) compared on every refine op
+PROPS["C20"]["model"] = True
+PROPS["C20"]["tags"] = PROPS["C20"]["tags"] + ["corr"]
+
+def gen_C20_outer(quick, thorough):
+    """stage-1 tie of the refine model (Refine/OuterModel.v): CDTs with nested closed rings (depth up to 4), rings touching / sharing vertices,
+    dangling constraint edges inside and outside, open polylines, random try_add_constraint between vertices, random free points; after every few
+    building steps `refine - - - 0 <keep> 1`: the vertex budget 0 stops refine before the first iteration, so the excluded list is exactly
+    calculate_outer_faces of the state (compared as a set with the model's outer_faces)"""
+    def g(r, tier):
+        out = []
+        for i in range(n_cases(tier, quick, thorough)):
+            kind, scalar, hint = gen.pick_cfg(r, ("cdt",), 0.15)
+            c = Case("q%d" % i, "cdt", scalar, hint)
+            c.meta = {"style": "refine-outer", "kind": "cdt", "scalar": scalar, "hint": hint}
+            d = 1
+            def ring(pts, closed):
+                nonlocal d
+                toks = []
+                for (x, y) in pts:
+                    toks += [bits(float(x)), bits(float(y)), d]
+                    d += 1
+                c.add("addes", len(pts), 1 if closed else 0, *toks)
+            def probe():
+                c.add("refine", "-", "-", "-", 0, 1 if r.chance(0.2) else 0, 1)
+            style = r.below(5)
+            cx, cy = r.range(-3, 3), r.range(-3, 3)
+            if style <= 2:
+                # concentric rings: squares and diamonds of decreasing size
+                n = r.range(1, 4)
+                sz = 4 * n + r.range(0, 2)
+                for k in range(n):
+                    s = sz - 4 * k
+                    if r.chance(0.5):
+                        ring([(cx - s, cy - s), (cx + s, cy - s), (cx + s, cy + s), (cx - s, cy + s)], not r.chance(0.1))
+                    else:
+                        ring([(cx - s, cy), (cx, cy - s), (cx + s, cy), (cx, cy + s)], not r.chance(0.1))
+                    if r.chance(0.3):
+                        probe()
+            elif style == 3:
+                # two rings side by side, possibly sharing a vertex, inside a big one
+                s = r.range(2, 4)
+                if r.chance(0.6):
+                    ring([(-3 * s - 2, -2 * s - 2), (3 * s + 2, -2 * s - 2), (3 * s + 2, 2 * s + 2), (-3 * s - 2, 2 * s + 2)], True)
+                ring([(-2 * s, -s), (0, -s), (0, s), (-2 * s, s)], True)
+                off = r.choice([0, 0, 1])
+                ring([(off, -s) if off else (0, -s), (2 * s, -s), (2 * s, s + off)], True)
+            else:
+                # random polygon through grid points (may be refused by crossing: add_constraint_edges panics are documented) -> use points + tryc only
+                pass
+            # dangling edges and free points
+            for _ in range(r.range(0, 4)):
+                a = (r.range(-14, 14), r.range(-14, 14))
+                b = (a[0] + r.range(-3, 3), a[1] + r.range(-3, 3))
+                if a != b:
+                    c.ins(float(a[0]), float(a[1]), d); d += 1
+                    c.ins(float(b[0]), float(b[1]), d); d += 1
+                    c.add("tryc", "v%d" % (r.below(64)), "v%d" % (r.below(64)))
+                if r.chance(0.3):
+                    probe()
+            for _ in range(r.range(0, 8)):
+                c.ins(float(r.range(-14, 14)), float(r.range(-14, 14)), d); d += 1
+            for _ in range(r.range(0, 10)):
+                c.add("tryc", "v%d" % r.below(64), "v%d" % r.below(64))
+                if r.chance(0.3):
+                    probe()
+            probe()
+            out.append(c)
+        return out
+    return g
+
+PROPS["C20"]["gen"] = gen_union(PROPS["C20"]["gen"], gen_C20_outer(300, 1200))
+
+def gen_C20_model(quick, thorough):
+    """stage-2 tie of the refine model (Refine/RefineModel.v): planar straight line graphs with integer, dyadic and full-mantissa coordinates at scales
+    2^-60 .. 2^40 (f32: 2^-20 .. 2^20): star-shaped polygons (closed / open), fans of constraints meeting at small angles (the constraint_edge_map
+    exemption and the power-of-two split rule), random constraints between vertices, free points close to constraint edges (encroachment), thin
+    triangles; refine with all parameter combinations and budgets 1..40, often a second and third time on the refined mesh"""
+    import math
+    def g(r, tier):
+        out = []
+        for i in range(n_cases(tier, quick, thorough)):
+            kind, scalar, hint = gen.pick_cfg(r, ("cdt",), 0.35)
+            f32 = scalar == "f32"
+            c = Case("m%d" % i, "cdt", scalar, hint)
+            c.meta = {"style": "refine-model", "kind": "cdt", "scalar": scalar, "hint": hint}
+            cstyle = r.choice(["int", "int", "dyadic", "real", "real"])
+            sc = 2.0 ** (r.choice([0, 0, 0, 7, -20, 20] if f32 else [0, 0, 0, 7, -20, 40, -60]))
+            def co(x):
+                if cstyle == "int":
+                    v = float(round(x))
+                elif cstyle == "dyadic":
+                    v = round(x * 16) / 16.0
+                else:
+                    v = x
+                v *= sc
+                if f32:
+                    v = gen.f32_from_bits(gen.f32_bits(v)) if hasattr(gen, "f32_from_bits") else v
+                return v
+            def rnd():
+                return ((r.next() >> 11) / float(1 << 53)) * 24.0 - 12.0
+            d = 1
+            def ring(pts, closed):
+                nonlocal d
+                toks = []
+                for (x, y) in pts:
+                    toks += [bits(co(x)), bits(co(y)), d]
+                    d += 1
+                c.add("addes", len(pts), 1 if closed else 0, *toks)
+            shape = r.choice([0, 1, 2, 3, 4, 4, 5])
+            if shape <= 1:
+                # star-shaped polygon around a centre (no self intersection), possibly with an inner one
+                n = r.range(3, 9)
+                cx, cy = rnd() / 4, rnd() / 4
+                angs = sorted(((r.next() >> 11) / float(1 << 53)) * 2 * math.pi for _ in range(n))
+                rad = [4.0 + ((r.next() >> 11) / float(1 << 53)) * 7.0 for _ in range(n)]
+                ring([(cx + rad[k] * math.cos(angs[k]), cy + rad[k] * math.sin(angs[k])) for k in range(n)], not r.chance(0.15))
+                if r.chance(0.4):
+                    m = r.range(3, 5)
+                    angs2 = sorted(((r.next() >> 11) / float(1 << 53)) * 2 * math.pi for _ in range(m))
+                    ring([(cx + 1.5 * math.cos(a), cy + 1.5 * math.sin(a)) for a in angs2], True)
+            elif shape == 2:
+                # fan of constraints from one apex at small angles
+                ax, ay = rnd() / 2, rnd() / 2
+                base = ((r.next() >> 11) / float(1 << 53)) * 2 * math.pi
+                n = r.range(2, 5)
+                a = base
+                for k in range(n):
+                    L = 6.0 + ((r.next() >> 11) / float(1 << 53)) * 6.0
+                    c.add("adde", bits(co(ax)), bits(co(ay)), d, bits(co(ax + L * math.cos(a))), bits(co(ay + L * math.sin(a))), d + 1)
+                    d += 2
+                    a += r.choice([0.05, 0.1, 0.2, 0.35, 0.5, 0.7])
+            elif shape == 3:
+                # rectangle with a thin sliver and points close to its sides
+                W, H = r.range(6, 12), r.range(4, 10)
+                ring([(-W, -H), (W, -H), (W, H), (-W, H)], True)
+                for _ in range(r.range(1, 4)):
+                    side = r.below(4)
+                    t = rnd() / 12.0
+                    eps = r.choice([0.25, 0.5, 1.0, 0.125])
+                    p = [(t * W, -H + eps), (W - eps, t * H), (t * W, H - eps), (-W + eps, t * H)][side]
+                    c.ins(co(p[0]), co(p[1]), d); d += 1
+            elif shape == 4:
+                if r.chance(0.5):
+                    # long thin triangle / polyline
+                    n = r.range(2, 5)
+                    ring([(-11 + 22.0 * k / n + rnd() / 12, rnd() / 6) for k in range(n + 1)], False)
+                else:
+                    # narrow channel between two long parallel constraints (inside a frame or not) with a few points in it: one circumcentre
+                    # encroaches upon both walls, found in the order of the simulated flips (the order of the forcibly split segments)
+                    w = r.choice([0.5, 1.0, 1.5, 2.0])
+                    L = r.range(6, 11)
+                    tilt = r.choice([0.0, 0.0, 0.25, -0.5])
+                    if r.chance(0.5):
+                        ring([(-L - 2, -5), (L + 2, -5), (L + 2, 5 + w), (-L - 2, 5 + w)], True)
+                    ring([(-L, 0), (L, tilt)], False)
+                    ring([(-L + r.range(0, 2), w), (L - r.range(0, 2), w + tilt)], False)
+                    for _ in range(r.choice([1, 2, 3, 4, 8, 12])):
+                        x = rnd() * L / 14.0
+                        c.ins(co(x), co(tilt * (x + L) / (2 * L) + w * r.choice([0.25, 0.5, 0.5, 0.5, 0.625, 0.375, 0.75, 0.125])), d); d += 1
+            # free points
+            for _ in range(r.range(0, 7)):
+                c.ins(co(rnd()), co(rnd()), d); d += 1
+            for _ in range(r.range(0, 4)):
+                c.add("tryc", "v%d" % r.below(64), "v%d" % r.below(64))
+            nref = r.choice([1, 1, 2, 2, 3])
+            for k in range(nref):
+                ratio = r.choice(["-", "-", bits(1.0), bits(0.8), bits(0.7071067811865476), bits(1.2), bits(1.5), bits(2.0), bits(0.6), bits(0.58)])
+                mina = r.choice(["-", "-", "-", bits(0.5 * sc * sc), bits(3.0 * sc * sc)])
+                maxa = r.choice(["-", "-", bits(8.0 * sc * sc), bits(40.0 * sc * sc), bits(2.0 * sc * sc)])
+                maxv = r.choice([1, 2, 3, 5, 10, 20, 40]) if tier != "thorough" else r.choice([1, 3, 10, 30, 60])
+                keep = 1 if r.chance(0.25) else 0
+                excl = 1 if r.chance(0.5) else 0
+                c.add("refine", ratio, mina, maxa, maxv, keep, excl)
+            out.append(c)
+        return out
+    return g
+
+PROPS["C20"]["gen"] = gen_union(PROPS["C20"]["gen"], gen_C20_model(500, 1500))
+
